@@ -29,6 +29,8 @@ fn main() {
         "cursor-record" => xv::cursor::cmd_record(rest),
         "pack-replay" => xv::pack::cmd_replay(rest),
         "pack-record" => xv::pack::cmd_record(rest),
+        "arith-replay" => xv::arith::cmd_replay(rest),
+        "arith-record" => xv::arith::cmd_record(rest),
         other => {
             eprintln!("unknown subcommand {}", other);
             2
